@@ -518,3 +518,72 @@ def _(self, decoder: Obj("Decoder")) -> Tup(Bytes, Nat):
                     result[1] == self.minimum
                     and decoder.number_of_bits == old(decoder.number_of_bits) - old(decoder.number_of_bits) % 8
                     - self.minimum))
+
+
+@contract("Choice.decode_root", props=["C05", "C12", "C16", "C08", "C01"])
+def _(self, decoder: Obj("Decoder")) -> Tup(Str, Val):
+    # X.691 23.6: the index of the alternative among the root alternatives (no bits if there is only one), then the
+    # alternative; an index that names no alternative is a decode error; an error inside the alternative is located at it
+    opaque("ld_size", "ld_val", "ld_bad")
+    inline("Choice.decode_root_index")
+    requires(self.number_of_indefinite_bits is None and self.root_number_of_bits <= 16 and self.maximum >= 0)
+    raises(DecodeError)
+    raises(UnicodeDecodeError)
+    raises(ValueError)
+    raises(IndexError)
+    raises(NotImplementedError)
+    assigns(decoder)
+    ensures(decoder.number_of_bits <= old(decoder.number_of_bits) and decoder.value == old(decoder.value))
+
+
+@contract("Choice.encode_root", props=["C05", "C12", "C01"])
+def _(self, data: Tup(Str, Val), encoder: Obj("Encoder")):
+    # an alternative that is not a root alternative is the library's encode error (never a KeyError); an error inside the
+    # alternative is located at it (C12)
+    requires(encoder.number_of_bits <= 3000)
+    inline("Choice.encode_root_index")
+    requires(self.number_of_indefinite_bits is None and self.root_number_of_bits <= 16)
+    assumes("class invariant of Choice (established by __init__): root indexes are 0..maximum and fit root_number_of_bits, "
+            "and every root index has a member",
+            implies(data[0] in self.root_name_to_index,
+                    self.root_name_to_index[data[0]] <= self.maximum
+                    and self.root_name_to_index[data[0]] < pow2(self.root_number_of_bits)
+                    and self.root_name_to_index[data[0]] in self.root_index_to_member))
+    raises(EncodeError, ensures=[implies(data[0] in self.root_name_to_index,
+                                         located_at(exc, self.root_index_to_member[self.root_name_to_index[data[0]]]))])
+    raises(OverflowError)
+    raises(UnicodeEncodeError)
+    raises(ValueError)
+    assigns(encoder)
+    ensures(data[0] in self.root_name_to_index)
+    ensures(encoder.chunks_number_of_bits + encoder.number_of_bits
+            >= old(encoder.chunks_number_of_bits) + old(encoder.number_of_bits))
+
+
+@contract("Choice.encode_additions", props=["C05", "C12", "C07", "C01"])
+def _(self, data: Tup(Str, Val), encoder: Obj("Encoder")):
+    # X.691 23.8: normally small index, then the alternative as an open type: padded to whole octets, preceded by its
+    # length in octets.  An unknown alternative is the library's encode error; an error inside it is located at it
+    requires(self.additions_index_to_member is not None and self.additions_name_to_index is not None)
+    requires(encoder.number_of_bits <= 3000)
+    assumes("class invariant of Choice (established by __init__): every addition index has a member; fewer than 64 "
+            "extension alternatives (the normally small number is then 7 bits)",
+            implies(data[0] in self.additions_name_to_index,
+                    self.additions_name_to_index[data[0]] in self.additions_index_to_member
+                    and self.additions_name_to_index[data[0]] < 64))
+    raises(EncodeError, ensures=[implies(data[0] in self.additions_name_to_index,
+                                         located_at(exc, self.additions_index_to_member[self.additions_name_to_index[data[0]]]))])
+    raises(OverflowError)
+    raises(UnicodeEncodeError)
+    raises(ValueError)
+    assigns(encoder)
+    ensures(data[0] in self.additions_name_to_index)
+
+
+@contract("Encoder.__iadd__", abstract=True)
+def _(self, other: Obj("Encoder")) -> Obj("Encoder"):
+    # assumed (the chunk list is not tracked): appends all bits of the other encoder
+    assigns(self)
+    ensures(result is self)
+    ensures(self.chunks_number_of_bits + self.number_of_bits
+            == old(self.chunks_number_of_bits) + old(self.number_of_bits) + other.chunks_number_of_bits + other.number_of_bits)
